@@ -17,6 +17,10 @@ def parseMethod : String → Option Method
   | "pkprobe" => some .pkProbe
   | "pksig1" => some (.pkSig true)
   | "pksig0" => some (.pkSig false)
+  | "pwchange" => some .pwChange
+  | "hostsig1" => some (.hostSig true)
+  | "hostsig0" => some (.hostSig false)
+  | "kbdint" => some .kbdint
   | "unknown" => some .unknown
   | _ => none
 
@@ -28,10 +32,25 @@ def parseEv (s : String) : Option Ev :=
   | ["begin", k] => k.toNat?.map .beginDone
   | ["val", k] => k.toNat?.map .valDone
   | ["other"] => some .other
+  | ["info", c] => c.toNat?.map .info
+  | ["authmsg"] => some .authMsg
   | _ => none
 
 def showReply : Reply → String
-  | .success => "S" | .failure => "F" | .pkOk => "P"
+  | .success => "S" | .failure => "F" | .pkOk => "P" | .changeReq => "P" | .infoReq => "P" | .unimpl => "U"
+
+def triplesOf (s : String) : List (Nat × Nat × Nat) :=
+  if s == "-" then [] else (s.splitOn ",").filterMap fun p =>
+    match p.splitOn ":" with
+    | [a, b, c] => match a.toNat?, b.toNat?, c.toNat? with
+      | some a, some b, some c => some (a, b, c)
+      | _, _, _ => none
+    | _ => none
+
+def ansOf : Nat → KbdAns
+  | 1 => .accept
+  | 2 => .challenge
+  | _ => .reject
 
 /-- run <new|mid|old> <async 0/1><perUserKeys 0/1> <noauth users: u:1,...|-> <pw: u:c,...|-> <key: u:k,...|-> events... -/
 def step (_ : Unit) (ws : List String) : Unit × String :=
@@ -46,6 +65,34 @@ def step (_ : Unit) (ws : List String) : Unit × String :=
                            pwOK := fun u c => pws.any (· == (u, c)), keyOK := fun u k => ks.any (· == (u, k)),
                            perUserKeys := async.endsWith "1" && async.length == 2 }
         let s := if variant == "old" then runOld app es else if variant == "mid" then runMid app es else run app es
+        let comp := match s.complete with | some u => toString u | none => "-"
+        s!"out={String.join (s.out.map showReply)} complete={comp} closed={if s.closed then 1 else 0}"
+      | none => "bad-op"
+    | "run2" :: async :: noauth :: pw :: key :: pwexp :: chpw :: chpwexp :: hostkey :: hostuser :: kbd0 :: kbd1 :: evs =>
+      match evs.mapM parseEv with
+      | some es =>
+        let na := pairsOf noauth
+        let pws := pairsOf pw
+        let ks := pairsOf key
+        let pe := pairsOf pwexp
+        let cp := pairsOf chpw
+        let cpe := pairsOf chpwexp
+        let hk := pairsOf hostkey
+        let hu := pairsOf hostuser
+        let k0 := pairsOf kbd0
+        let k1 := triplesOf kbd1
+        let app : App := { needsAuth := fun u => !(na.any (·.1 == u)), beginAsync := async.startsWith "1",
+                           pwOK := fun u c => pws.any (· == (u, c)), keyOK := fun u k => ks.any (· == (u, k)),
+                           perUserKeys := async.endsWith "1" && async.length == 2,
+                           pwExpired := fun u c => pe.any (· == (u, c)),
+                           chpwOK := fun u c => cp.any (· == (u, c)),
+                           chpwExpired := fun u c => cpe.any (· == (u, c)),
+                           hostKeyOK := fun c => hk.any (·.1 == c),
+                           hostUserOK := fun u c => hu.any (· == (u, c)),
+                           kbdStart := fun u => match k0.find? (·.1 == u) with | some (_, a) => ansOf a | none => .reject,
+                           kbdNext := fun u c => match k1.find? (fun t => t.1 == u && t.2.1 == c) with
+                             | some (_, _, a) => ansOf a | none => .reject }
+        let s := run app es
         let comp := match s.complete with | some u => toString u | none => "-"
         s!"out={String.join (s.out.map showReply)} complete={comp} closed={if s.closed then 1 else 0}"
       | none => "bad-op"
